@@ -35,7 +35,7 @@ m = {
     "hooks": {
         "guard": "cargo feature `verif` (elvis-core/verif, elvis/verif)",
         "enable": "the harness crates under /verif/harness depend on /repo/sim/elvis-core and /repo/sim/elvis by path with features = [\"verif\"]; cargo rebuilds them from /repo's working tree on every check",
-        "baseline_off_cmd": "cd /repo/sim && cargo test --workspace --no-fail-fast --offline",
+        "baseline_off_cmd": "cd /repo/sim && cargo nextest run --workspace --no-fail-fast --tool-config-file pb:/w/lib/nextest.toml --profile pb --test-threads 8 --offline",
         "source_commits": hook_commits,
         "add_only": True,
     },
